@@ -8,6 +8,8 @@ CONSTANTS
   EditDids = {}
   EditThresholds = {}
   Payloads = {"project"}
+  ListIds = {}
+  ListThresholds = {}
   JsonDocs <- MCJsonDocs
 INIT Init
 NEXT Next
